@@ -209,6 +209,15 @@ def verify_function(c, mutate=None, canary=False):
     env["$tally_key"] = SeqV(env["$tally_key"].arr, env["$tally"].n, None)
     if any(isinstance(x, (ast.Yield, ast.YieldFrom)) for x in ast.walk(fnode)):
         env["__yielded__"] = ListV()
+    # C locals: structs exist from the start; scalars are indeterminate until assigned (arbitrary values)
+    structs = getattr(ex_src, "structs", {}) or {}
+    for (fq, var), ct in (ex_src.ctypes or {}).items():
+        if fq != ex_src.qualname or var in env:
+            continue
+        if ct in structs:
+            env[var] = ObjV("__struct__", {f_: fresh(f"{var}.{f_}", I) for f_ in structs[ct]})
+        elif ct in ("int", "Py_ssize_t", "ssize_t", "size_t", "long", "unsigned size_t"):
+            env[var] = fresh(var + ".uninit", I)
     st = St(env, inv)
     if init_self is not None:
         from .calls import construct
